@@ -355,7 +355,8 @@ def check_known_witnesses(module):
         except Exception:
             hit = False
         if hit:
-            lines.append('KNOWN-FINDING: property=%s key=%s %s' % (module.PROPERTY, e['key'], e.get('what', '')))
+            what = ' '.join(str(e.get('what', '')).split())[:400]
+            lines.append('KNOWN-FINDING: property=%s key=%s %s' % (module.PROPERTY, e['key'], what))
     return lines
 
 
